@@ -405,4 +405,586 @@ theorem nextToken_ident (cfg : LexCfg) (h : CfgOK cfg) (s rest : List Char)
     simp only [k2, k3, hbang, hdollar, hnt, hnf, h.a1, hpr, hcol, hvalid, hbk]
     simp
 
+/-! ### numbers -/
+
+/-- what may follow a number text -/
+def numStop (dec : Char) (rest : List Char) : Bool :=
+  stops (fun c => isDigit c || c == dec || c == 'e' || c == 'E') rest
+
+theorem numStop_digit (dec : Char) (rest : List Char) (h : numStop dec rest = true) :
+    stops isDigit rest = true := by
+  cases rest with
+  | nil => rfl
+  | cons d r =>
+    simp only [numStop, stops, Bool.not_eq_true', Bool.or_eq_false_iff] at h ⊢
+    exact h.1.1.1
+
+theorem numExp_nil (dec : Char) (rest : List Char) (h : numStop dec rest = true) :
+    numExp rest = ([], rest) := by
+  unfold numExp
+  split
+  · rename_i e x u
+    simp only [numStop, stops, Bool.not_eq_true', Bool.or_eq_false_iff, beq_eq_false_iff_ne] at h
+    simp [h.1.2, h.2]
+  · rfl
+
+theorem numExp_ok (dec : Char) (r2 rest : List Char) (h : expOK r2 = true)
+    (hr : numStop dec rest = true) : numExp (r2 ++ rest) = (r2, rest) := by
+  match r2, h with
+  | [], _ => exact numExp_nil dec rest hr
+  | e :: x :: v, h =>
+    simp only [expOK, Bool.and_eq_true, decide_eq_true_eq] at h
+    obtain ⟨⟨⟨he, hx⟩, hv⟩, _⟩ := h
+    subst he
+    have hd := numStop_digit dec rest hr
+    simp only [List.cons_append, numExp]
+    simp only [hx, takeWhile_app isDigit v rest hv hd, dropWhile_app isDigit v rest hv hd]
+    simp
+
+theorem expOK_stops_digit (r2 rest : List Char) (h : expOK r2 = true)
+    (hd : stops isDigit rest = true) : stops isDigit (r2 ++ rest) = true := by
+  match r2, h with
+  | [], _ => simpa using hd
+  | e :: x :: v, h =>
+    simp only [expOK, Bool.and_eq_true, decide_eq_true_eq] at h
+    obtain ⟨⟨⟨he, _⟩, _⟩, _⟩ := h
+    subst he
+    simp [stops]; decide
+
+theorem map_noDot (dec : Char) (l : List Char) (h : ∀ c, c ∈ l → c ≠ '.') :
+    l.map (fun c => if c = '.' then dec else c) = l := by
+  induction l with
+  | nil => rfl
+  | cons a t ih =>
+    have ha : a ≠ '.' := h a (List.mem_cons_self ..)
+    simp only [List.map, ha, if_false]
+    rw [ih (fun c hc => h c (List.mem_cons_of_mem _ hc))]
+
+theorem digits_noDot (l : List Char) (h : l.all isDigit = true) : ∀ c, c ∈ l → c ≠ '.' := by
+  intro c hc hdot
+  have := List.all_eq_true.mp h c hc
+  subst hdot
+  revert this; decide
+
+theorem expOK_noDot (r : List Char) (h : expOK r = true) : ∀ c, c ∈ r → c ≠ '.' := by
+  match r, h with
+  | [], _ => intro c hc; cases hc
+  | e :: x :: v, h =>
+    simp only [expOK, Bool.and_eq_true, decide_eq_true_eq] at h
+    obtain ⟨⟨⟨he, hx⟩, hv⟩, _⟩ := h
+    subst he
+    intro c hc hdot
+    subst hdot
+    simp only [List.mem_cons] at hc
+    rcases hc with hc | hc | hc
+    · revert hc; decide
+    · subst hc
+      revert hx; decide
+    · exact digits_noDot v hv '.' hc rfl
+
+theorem takeWhile_all (p : Char → Bool) (l : List Char) : (l.takeWhile p).all p = true := by
+  induction l with
+  | nil => rfl
+  | cons a t ih =>
+    simp only [List.takeWhile]
+    cases ha : p a with
+    | true => simp [ha, ih]
+    | false => simp
+
+theorem dropWhile_stops (p : Char → Bool) (l : List Char) : stops p (l.dropWhile p) = true := by
+  induction l with
+  | nil => rfl
+  | cons a t ih =>
+    simp only [List.dropWhile]
+    cases ha : p a with
+    | true => simpa [ha] using ih
+    | false => simp [stops, ha]
+
+theorem consumeNumber_ok (dec : Char) (hdec : dec = '.' ∨ dec = ',') (c : Char) (t rest : List Char)
+    (hshape : (match t.dropWhile isDigit with
+      | [] => true
+      | c1 :: u => if c1 = '.' then expOK (u.dropWhile isDigit) else expOK (c1 :: u)) = true)
+    (hr : numStop dec rest = true) :
+    consumeNumber dec c (t.map (fun c => if c = '.' then dec else c) ++ rest) = (c :: t, rest) := by
+  have hdecd : isDigit dec = false := by rcases hdec with h | h <;> subst h <;> decide
+  have hdece : dec ≠ 'e' ∧ dec ≠ 'E' := by rcases hdec with h | h <;> subst h <;> decide
+  have hd := numStop_digit dec rest hr
+  have ht : t = t.takeWhile isDigit ++ t.dropWhile isDigit := (List.takeWhile_append_dropWhile).symm
+  have hd1 := takeWhile_all isDigit t
+  generalize t.takeWhile isDigit = d1 at ht hd1
+  generalize hr1 : t.dropWhile isDigit = r1 at ht hshape
+  have hstop1 : stops isDigit r1 = true := by rw [← hr1]; exact dropWhile_stops isDigit t
+  subst ht
+  match r1, hshape, hstop1 with
+  | [], _, _ =>
+    simp only [List.append_nil]
+    rw [map_noDot dec d1 (digits_noDot d1 hd1)]
+    unfold consumeNumber
+    rw [takeWhile_app isDigit d1 rest hd1 hd, dropWhile_app isDigit d1 rest hd1 hd]
+    have hfr : numFrac dec rest = ([], rest) := by
+      unfold numFrac
+      split
+      · rename_i a u
+        have : a ≠ dec := by
+          simp only [numStop, stops, Bool.not_eq_true', Bool.or_eq_false_iff, beq_eq_false_iff_ne] at hr
+          exact hr.1.1.2
+        simp [this]
+      · rfl
+    simp [hfr, numExp_nil dec rest hr]
+  | c1 :: u, hshape, hstop1 =>
+    by_cases hc1 : c1 = '.'
+    · subst hc1
+      simp only [if_true] at hshape
+      have hu : u = u.takeWhile isDigit ++ u.dropWhile isDigit := (List.takeWhile_append_dropWhile).symm
+      have hf1 := takeWhile_all isDigit u
+      generalize u.takeWhile isDigit = f1 at hu hf1
+      generalize u.dropWhile isDigit = r2 at hu hshape
+      subst hu
+      have hmap : (d1 ++ '.' :: (f1 ++ r2)).map (fun c => if c = '.' then dec else c)
+          = d1 ++ dec :: (f1 ++ r2) := by
+        simp only [List.map_append, List.map_cons, if_true]
+        rw [map_noDot dec d1 (digits_noDot d1 hd1), map_noDot dec f1 (digits_noDot f1 hf1),
+          map_noDot dec r2 (expOK_noDot r2 hshape)]
+      rw [hmap]
+      have hs1 : stops isDigit (dec :: (f1 ++ r2) ++ rest) = true := by simp [stops, hdecd]
+      have hs2 := expOK_stops_digit r2 rest hshape hd
+      unfold consumeNumber
+      rw [List.append_assoc, takeWhile_app isDigit d1 _ hd1 hs1, dropWhile_app isDigit d1 _ hd1 hs1]
+      simp only [List.cons_append, List.append_assoc, numFrac, if_true]
+      rw [takeWhile_app isDigit f1 _ hf1 hs2, dropWhile_app isDigit f1 _ hf1 hs2]
+      simp [numExp_ok dec r2 rest hshape hr]
+    · simp only [hc1, if_false] at hshape
+      have hnd := expOK_noDot _ hshape
+      have hmap : (d1 ++ c1 :: u).map (fun c => if c = '.' then dec else c) = d1 ++ c1 :: u := by
+        simp only [List.map_append]
+        rw [map_noDot dec d1 (digits_noDot d1 hd1), map_noDot dec _ hnd]
+      rw [hmap]
+      have hs1 : stops isDigit ((c1 :: u) ++ rest) = true := by simpa [stops] using hstop1
+      unfold consumeNumber
+      rw [List.append_assoc, takeWhile_app isDigit d1 _ hd1 hs1, dropWhile_app isDigit d1 _ hd1 hs1]
+      have hc1e : c1 = 'e' := by
+        match u, hshape with
+        | x :: v, hshape =>
+          simp only [expOK, Bool.and_eq_true, decide_eq_true_eq] at hshape
+          exact hshape.1.1.1
+      have hfr : numFrac dec (c1 :: (u ++ rest)) = ([], c1 :: (u ++ rest)) := by
+        subst hc1e
+        simp [numFrac, hdece.1.symm]
+      have hex := numExp_ok dec (c1 :: u) rest hshape hr
+      simp only [List.cons_append] at hex ⊢
+      simp [hfr, hex]
+
+theorem nextToken_num (cfg : LexCfg) (h : CfgOK cfg) (d rest : List Char) (hd : numOK d = true)
+    (hf : follow cfg (.num d) rest = true) :
+    nextToken cfg (d.map (fun c => if c = '.' then cfg.decimal else c) ++ rest)
+      = some (.num d, rest) := by
+  match d, hd with
+  | c :: t, hd =>
+    simp only [numOK, Bool.and_eq_true] at hd
+    obtain ⟨⟨hc, hshape⟩, hparse⟩ := hd
+    have hfacts : numStop cfg.decimal rest = true ∧
+        headIs (rest.dropWhile cfg.cc.white) ':' = false := by
+      cases rest with
+      | nil => exact ⟨rfl, rfl⟩
+      | cons a r =>
+        have hb := follow_cons hf
+        simp only [badNext, Bool.or_eq_false_iff, decide_eq_false_iff_not] at hb
+        obtain ⟨⟨⟨⟨⟨h1, h2⟩, h3⟩, h4⟩, h5⟩, h6⟩ := hb
+        refine ⟨by simp [numStop, stops, h1, h2, h3, h4], ?_⟩
+        rw [dropWhile_head h6]
+        simp [headIs, h5]
+    obtain ⟨hstop, hcolon⟩ := hfacts
+    have hcdot : c ≠ '.' := by intro e; subst e; revert hc; decide
+    have hal := h.digit_alnum c hc
+    simp only [List.map_cons, hcdot, if_false, List.cons_append]
+    rw [nextToken_other cfg c _ (h.white_alnum c hal) (alnum_notSpecial cfg h c hal)]
+    simp only [hc, if_true]
+    unfold digitBranch
+    rw [consumeNumber_ok cfg.decimal h.decimal c t rest hshape hstop]
+    simp [hparse, hcolon]
+
+/-! ### references (through C22's lemmas) -/
+
+theorem refOK_inGrid (r : PRef) (h : refOK r = true) : InGrid 0 0 r := by
+  simp only [refOK, Bool.and_eq_true, decide_eq_true_eq] at h
+  obtain ⟨⟨⟨h1, h2⟩, h3⟩, h4⟩ := h
+  unfold InGrid resolvedRow resolvedCol
+  refine ⟨?_, ?_, ?_, ?_⟩ <;> split <;> omega
+
+theorem tokenOf_zero (r : PRef) : tokenOf 0 0 r = r := by
+  obtain ⟨c, w, ac, ar⟩ := r
+  unfold tokenOf resolvedRow resolvedCol
+  cases ac <;> cases ar <;> simp
+
+theorem printA1_pre (pre : List Char) (cr cc : Int) (r : PRef) (hg : InGrid cr cc r) :
+    printA1 pre cr cc r false false = pre ++ printA1 [] cr cc r false false := by
+  obtain ⟨h1, h2, h3, h4⟩ := hg
+  unfold resolvedRow at h1 h2
+  unfold resolvedCol at h3 h4
+  unfold printA1 numberToColumn isValidColumnNumber LAST_COLUMN LAST_ROW
+  simp only [List.nil_append]
+  generalize (if r.absRow = true then r.row else r.row + cr) = row at *
+  generalize (if r.absCol = true then r.column else r.column + cc) = col at *
+  have e1 : ¬ (row < 1 ∨ row > ((1048576 : Nat) : Int)) := by omega
+  have e2 : (decide (1 ≤ col) && decide (col ≤ ((16384 : Nat) : Int))) = true := by simp; omega
+  simp only [e1, if_false, e2, if_true]
+
+theorem consumeRange_cell (cc : CharClass) (sh : Option (List Char)) (r : PRef) (rest : List Char)
+    (hr : refOK r = true) (hrest : stops (fun c => isDigit c || c == ':') rest = true) :
+    consumeRange cc true sh (printA1 [] 0 0 r false false ++ rest) = (.ref sh r, rest) := by
+  unfold consumeRange
+  simp only [if_true]
+  rw [consumeRangeA1_cell 0 0 r rest (refOK_inGrid r hr) hrest]
+  simp [tokOfRange, tokenOf_zero]
+
+theorem dollar_not_identChar (cfg : LexCfg) (h : CfgOK cfg) : isIdentChar cfg.cc '$' = false := by
+  simp [isIdentChar, h.special_not_alnum '$' (by decide)]
+
+theorem bang_not_identChar (cfg : LexCfg) (h : CfgOK cfg) : isIdentChar cfg.cc '!' = false := by
+  simp [isIdentChar, h.special_not_alnum '!' (by decide)]
+
+theorem nextToken_dollar (cfg : LexCfg) (h : CfgOK cfg) (t : List Char) :
+    nextToken cfg ('$' :: t) = some (ofRefTok (consumeRange cfg.cc true none ('$' :: t))) := by
+  unfold nextToken
+  rw [dropWhile_head (h.white_special '$' (by decide))]
+  have hp : punctTok '$' = none := by decide
+  simp [hp, h.a1]
+
+/-- `[$]COL[$]ROW` without a sheet, when one of the `$` is there -/
+theorem nextToken_ref_local (cfg : LexCfg) (h : CfgOK cfg) (r : PRef) (rest : List Char)
+    (hr : refOK r = true) (habs : (r.absCol || r.absRow) = true)
+    (hrest : stops (fun c => isDigit c || c == ':') rest = true) :
+    nextToken cfg (printA1 [] 0 0 r false false ++ rest) = some (.ref none r, rest) := by
+  have hcell := consumeRange_cell cfg.cc none r rest hr hrest
+  have hg := refOK_inGrid r hr
+  have htxt := printA1_cell 0 0 r hg
+  obtain ⟨g1, g2, g3, g4⟩ := hg
+  cases hac : r.absCol with
+  | true =>
+    rw [htxt, hac] at hcell ⊢
+    simp only [cellText, withDollar, if_true, List.cons_append, List.append_assoc] at hcell ⊢
+    rw [nextToken_dollar cfg h, hcell]
+    rfl
+  | false =>
+    have har : r.absRow = true := by simpa [hac] using habs
+    rw [htxt, hac, har] at hcell ⊢
+    simp only [cellText, withDollar, if_true, Bool.false_eq_true, if_false, List.cons_append,
+      List.append_assoc] at hcell ⊢
+    generalize hcol : numToCol (resolvedCol 0 r).toNat = col at hcell ⊢
+    have hc1 : 1 ≤ (resolvedCol 0 r).toNat := by omega
+    have hup : col.all isUpper = true := by rw [← hcol]; exact numToCol_all_upper _
+    have hne : col ≠ [] := by rw [← hcol]; exact numToCol_ne_nil _ (by omega)
+    have hall : col.all (isIdentChar cfg.cc) = true := by
+      rw [List.all_eq_true] at hup ⊢
+      intro c hc
+      exact alpha_identChar cfg h c (h.upper_alpha c (hup c hc))
+    have hstop : stops (isIdentChar cfg.cc) ('$' :: (natToDec (resolvedRow 0 r).toNat ++ rest)) = true := by
+      simp [stops, dollar_not_identChar cfg h]
+    have k2 := takeWhile_app _ col _ hall hstop
+    have k3 := dropWhile_app _ col _ hall hstop
+    cases col with
+    | nil => exact absurd rfl hne
+    | cons c tl =>
+      have hcs : isIdentStart cfg.cc c = true := by
+        have := (List.all_eq_true.mp hup) c (List.mem_cons_self ..)
+        simp [isIdentStart, h.upper_alpha c this]
+      rw [List.cons_append, nextToken_identStart cfg h c _ hcs, ← List.cons_append]
+      unfold identBranch
+      simp only [k2, k3, h.a1]
+      simp only [headIs]
+      simp only [List.cons_append] at hcell
+      simp [hcell, ofRefTok]
+
+theorem nextToken_quote (cfg : LexCfg) (h : CfgOK cfg) (t : List Char) :
+    nextToken cfg ('\'' :: t) = some (ofRefTok (quotedPath cfg.cc cfg.a1 t)) := by
+  unfold nextToken
+  rw [dropWhile_head (h.white_special '\'' (by decide))]
+  have hp : punctTok '\'' = none := by decide
+  simp [hp]
+
+/-- a sheet-qualified cell, quoted or not as `quote_name` decides -/
+theorem nextToken_ref_sheet (cfg : LexCfg) (h : CfgOK cfg) (n : List Char) (hn : n ≠ []) (r : PRef)
+    (rest : List Char) (hr : refOK r = true)
+    (hrest : stops (fun c => isDigit c || c == ':') rest = true) :
+    nextToken cfg ((quoteName cfg.cc n ++ ['!']) ++ (printA1 [] 0 0 r false false ++ rest))
+      = some (.ref (some n) r, rest) := by
+  have hcell := consumeRange_cell cfg.cc (some n) r rest hr hrest
+  generalize printA1 [] 0 0 r false false ++ rest = X at hcell ⊢
+  unfold quoteName quoteWith
+  cases hq : nameNeedsQuoting cfg.cc n with
+  | true =>
+    simp only [if_true, List.cons_append, List.append_assoc, List.nil_append]
+    rw [nextToken_quote cfg h]
+    unfold quotedPath
+    rw [consumeSingleQuoteString_escape n ('!' :: X) (by simp [stops])]
+    simp only [dropWhile_head (h.white_special '!' (by decide)), if_true, h.a1, hcell]
+    rfl
+  | false =>
+    simp only [Bool.false_eq_true, if_false, List.append_assoc, List.cons_append, List.nil_append]
+    have hlook : looksLikeIdent cfg.cc n = true := by
+      simp only [nameNeedsQuoting, Bool.or_eq_false_iff, Bool.not_eq_false'] at hq
+      exact hq.1.1
+    cases n with
+    | nil => exact absurd rfl hn
+    | cons c tl =>
+      simp only [looksLikeIdent, Bool.and_eq_true] at hlook
+      obtain ⟨hcs, htl⟩ := hlook
+      have hcic : isIdentChar cfg.cc c = true := by
+        simp only [isIdentStart, Bool.or_eq_true, decide_eq_true_eq] at hcs
+        rcases hcs with ha | hu
+        · exact alpha_identChar cfg h c ha
+        · simp [isIdentChar, hu]
+      have hall : (c :: tl).all (isIdentChar cfg.cc) = true := by
+        simp only [List.all_cons, Bool.and_eq_true]; exact ⟨hcic, htl⟩
+      have hstop : stops (isIdentChar cfg.cc) ('!' :: X) = true := by
+        simp [stops, bang_not_identChar cfg h]
+      have k2 := takeWhile_app _ (c :: tl) _ hall hstop
+      have k3 := dropWhile_app _ (c :: tl) _ hall hstop
+      rw [List.cons_append, nextToken_identStart cfg h c _ hcs, ← List.cons_append]
+      unfold identBranch
+      simp only [k2, k3, h.a1]
+      simp only [headIs]
+      simp [hcell, ofRefTok]
+
+/-! ### the plain form `A1` (identifier branch, parse_reference_a1) -/
+
+theorem a1Loop_upper (u tail : List Char) (hu : u.all isUpper = true) (a : A1Acc)
+    (ha : a.inRow = false) :
+    a1Loop (u ++ tail) a = a1Loop tail { a with col := a.col ++ u } := by
+  induction u generalizing a with
+  | nil => simp
+  | cons c t ih =>
+    simp only [List.all_cons, Bool.and_eq_true] at hu
+    simp only [List.cons_append, a1Loop, a1Step, hu.1, ha, Bool.not_false, Bool.and_self, if_true]
+    rw [ih hu.2 _ rfl]
+    simp
+
+theorem a1Loop_digits (d : List Char) (hd : d.all isDigit = true) (a : A1Acc) (hne : d ≠ []) :
+    a1Loop d a = some { a with row := a.row ++ d, inRow := true } := by
+  induction d generalizing a with
+  | nil => exact absurd rfl hne
+  | cons c t ih =>
+    simp only [List.all_cons, Bool.and_eq_true] at hd
+    have hnu : isUpper c = false := by
+      cases hx : isUpper c with
+      | false => rfl
+      | true => rw [isUpper_not_digit c hx] at hd; cases hd.1
+    simp only [a1Loop, a1Step, hnu, Bool.false_and, Bool.false_eq_true, if_false, hd.1, if_true]
+    cases t with
+    | nil => simp [a1Loop]
+    | cons c2 t2 =>
+      rw [ih hd.2 _ (by simp)]
+      simp
+
+theorem parseReferenceA1_cell (c r : Nat) (hc1 : 1 ≤ c) (hc2 : c ≤ 16384) (hr1 : 1 ≤ r)
+    (hr2 : r ≤ 1048576) :
+    (parseReferenceA1 (numToCol c ++ natToDec r)).isSome = true := by
+  unfold parseReferenceA1
+  rw [a1Loop_upper _ _ (numToCol_all_upper c) _ rfl, a1Loop_digits _ (natToDec_all_digit r) _ (natToDec_ne_nil r)]
+  have hcn := columnToNumber_numToCol c hc1 hc2
+  have hlen := numToCol_length_le3 c (by omega)
+  have hvc : isValidColumn (numToCol c) = true := by
+    unfold isValidColumn
+    have hl : ¬ (numToCol c).length > 3 := by omega
+    simp only [hl, if_false, hcn, isValidColumnNumber, LAST_COLUMN]
+    simp
+    exact ⟨by omega, by apply decide_eq_true; omega⟩
+  have hvr : isValidRow (r : Int) = true := by
+    simp only [isValidRow, LAST_ROW]
+    simp
+    exact ⟨by omega, by apply decide_eq_true; omega⟩
+  simp only [List.nil_append, hvc, Bool.not_true, Bool.false_eq_true, if_false,
+    parseI32_natToDec r (by omega), hcn, hvr]
+  simp
+
+theorem upperStr_fixed (cfg : LexCfg) (h : CfgOK cfg) (s : List Char)
+    (hs : ∀ c, c ∈ s → isUpper c = true ∨ isDigit c = true) : upperStr cfg s = s := by
+  unfold upperStr
+  induction s with
+  | nil => rfl
+  | cons a t ih =>
+    simp only [List.flatMap_cons, h.upper_ascii a (hs a (List.mem_cons_self ..))]
+    rw [ih (fun c hc => hs c (List.mem_cons_of_mem _ hc))]
+    rfl
+
+/-- what may follow a plain `A1` -/
+def plainStop (cfg : LexCfg) (rest : List Char) : Bool :=
+  stops (fun c => isIdentChar cfg.cc c || c == '!' || c == '$' || c == '(' || c == ':') rest
+
+theorem nextToken_ref_plain (cfg : LexCfg) (h : CfgOK cfg) (r : PRef) (rest : List Char)
+    (hr : refOK r = true) (hac : r.absCol = false) (har : r.absRow = false)
+    (hstop : plainStop cfg rest = true) :
+    nextToken cfg (printA1 [] 0 0 r false false ++ rest) = some (.ref none r, rest) := by
+  have hfacts : stops (isIdentChar cfg.cc) rest = true ∧ headIs rest '!' = false ∧
+      headIs rest '$' = false ∧ headIs rest '(' = false ∧
+      stops (fun c => isDigit c || c == ':') rest = true := by
+    cases rest with
+    | nil => simp [stops, headIs]
+    | cons d t =>
+      simp only [plainStop, stops, Bool.not_eq_true', Bool.or_eq_false_iff, beq_eq_false_iff_ne] at hstop
+      obtain ⟨⟨⟨⟨h1, h2⟩, h3⟩, h4⟩, h5⟩ := hstop
+      have hdd : isDigit d = false := by
+        cases hx : isDigit d with
+        | false => rfl
+        | true => simp [isIdentChar, h.digit_alnum d hx] at h1
+      refine ⟨by simp [stops, h1], by simp [headIs, h2], by simp [headIs, h3], by simp [headIs, h4],
+        by simp [stops, hdd, h5]⟩
+  obtain ⟨hs1, hbang, hdollar, hparen, hrest⟩ := hfacts
+  have hg := refOK_inGrid r hr
+  have hcell := consumeRangeA1_cell 0 0 r rest hg hrest
+  have htxt := printA1_cell 0 0 r hg
+  obtain ⟨g1, g2, g3, g4⟩ := hg
+  rw [htxt, hac, har] at hcell ⊢
+  simp only [cellText, withDollar, Bool.false_eq_true, if_false] at hcell ⊢
+  generalize hcn : (resolvedCol 0 r).toNat = cn at hcell ⊢
+  generalize hrn : (resolvedRow 0 r).toNat = rn at hcell ⊢
+  have hc1 : 1 ≤ cn ∧ cn ≤ 16384 := by omega
+  have hr1 : 1 ≤ rn ∧ rn ≤ 1048576 := by omega
+  have hpr := parseReferenceA1_cell cn rn hc1.1 hc1.2 hr1.1 hr1.2
+  have hchars : ∀ c, c ∈ numToCol cn ++ natToDec rn → isUpper c = true ∨ isDigit c = true := by
+    intro c hc
+    rcases List.mem_append.mp hc with hc | hc
+    · exact Or.inl (List.all_eq_true.mp (numToCol_all_upper cn) c hc)
+    · exact Or.inr (List.all_eq_true.mp (natToDec_all_digit rn) c hc)
+  have hall : (numToCol cn ++ natToDec rn).all (isIdentChar cfg.cc) = true := by
+    rw [List.all_eq_true]
+    intro c hc
+    rcases hchars c hc with hu | hd
+    · exact alpha_identChar cfg h c (h.upper_alpha c hu)
+    · simp [isIdentChar, h.digit_alnum c hd]
+  have hup := upperStr_fixed cfg h _ hchars
+  -- the text ends in a digit, a boolean name has none
+  have hnotbool : ∀ n, n.all (fun c => cfg.cc.alpha c && !isDigit c) = true →
+      numToCol cn ++ natToDec rn ≠ n := by
+    intro n hn heq
+    obtain ⟨x, xs, hx⟩ := List.exists_cons_of_ne_nil (natToDec_ne_nil rn)
+    have hxd : isDigit x = true := by
+      have := natToDec_all_digit rn
+      rw [hx] at this
+      simp only [List.all_cons, Bool.and_eq_true] at this
+      exact this.1
+    have hmem : x ∈ n := by rw [← heq, hx]; simp
+    have := List.all_eq_true.mp hn x hmem
+    simp [hxd] at this
+  have k2 := takeWhile_app _ _ rest hall hs1
+  have k3 := dropWhile_app _ _ rest hall hs1
+  have hne := numToCol_ne_nil cn (by omega)
+  have hhead : ∃ c tl, numToCol cn ++ natToDec rn ++ rest = c :: tl ∧ isIdentStart cfg.cc c = true := by
+    obtain ⟨c, tl, hctl⟩ := List.exists_cons_of_ne_nil hne
+    refine ⟨c, tl ++ natToDec rn ++ rest, by rw [hctl]; simp, ?_⟩
+    have := numToCol_all_upper cn
+    rw [hctl] at this
+    simp only [List.all_cons, Bool.and_eq_true] at this
+    simp [isIdentStart, h.upper_alpha c this.1]
+  obtain ⟨c, tl, hctl, hcs⟩ := hhead
+  rw [hctl, nextToken_identStart cfg h c tl hcs, ← hctl]
+  unfold identBranch
+  simp only [k2, k3, hbang, hdollar, hup, hparen, h.a1,
+    hnotbool cfg.trueName h.true_alpha.2, hnotbool cfg.falseName h.false_alpha.2, hpr, hcell]
+  simp [tokOfRange, ofRefTok, tokenOf_zero]
+
+/-! ### every token class together -/
+
+theorem nextToken_ref (cfg : LexCfg) (h : CfgOK cfg) (sh : Option (List Char)) (r : PRef)
+    (rest : List Char) (hok : tokOK cfg (.ref sh r) = true)
+    (hf : follow cfg (.ref sh r) rest = true) :
+    nextToken cfg (renderTok cfg (.ref sh r) ++ rest) = some (.ref sh r, rest) := by
+  simp only [tokOK, Bool.and_eq_true] at hok
+  obtain ⟨hsh, hr⟩ := hok
+  simp only [renderTok, h.a1, if_true]
+  rw [printA1_pre _ 0 0 r (refOK_inGrid r hr)]
+  by_cases hplain : (sh.isNone && !r.absCol && !r.absRow) = true
+  · simp only [Bool.and_eq_true, Option.isNone_iff_eq_none, Bool.not_eq_true'] at hplain
+    obtain ⟨⟨hnone, hac⟩, har⟩ := hplain
+    subst hnone
+    simp only [sheetPrefix, List.nil_append]
+    apply nextToken_ref_plain cfg h r rest hr hac har
+    cases rest with
+    | nil => rfl
+    | cons d t =>
+      have hb := follow_cons hf
+      simp only [badNext, Option.isNone_none, hac, har, Bool.not_false, Bool.and_self, if_true,
+        Bool.or_eq_false_iff, decide_eq_false_iff_not] at hb
+      obtain ⟨⟨⟨⟨h1, h2⟩, h3⟩, h4⟩, h5⟩ := hb
+      simp [plainStop, stops, h1, h2, h3, h4, h5]
+  · have hrest : stops (fun c => isDigit c || c == ':') rest = true := by
+      cases rest with
+      | nil => rfl
+      | cons d t =>
+        have hb := follow_cons hf
+        simp only [badNext, hplain, Bool.false_eq_true, if_false, Bool.or_eq_false_iff,
+          decide_eq_false_iff_not] at hb
+        simp [stops, hb.1, hb.2]
+    cases sh with
+    | some n =>
+      simp only [sheetPrefix, List.append_assoc]
+      have hn : n ≠ [] := by
+        intro e; subst e; simp [sheetOK] at hsh
+      have := nextToken_ref_sheet cfg h n hn r rest hr hrest
+      simpa [List.append_assoc] using this
+    | none =>
+      simp only [sheetPrefix, List.nil_append]
+      apply nextToken_ref_local cfg h r rest hr _ hrest
+      simp only [Option.isNone_none, Bool.true_and] at hplain
+      cases hac : r.absCol <;> cases har : r.absRow <;> simp_all
+
+/-- **one token**: `next_token` on the text of a well-formed token, followed by anything that does
+    not start with a character that glues to it, returns that token and leaves what follows -/
+theorem nextToken_renderTok (cfg : LexCfg) (h : CfgOK cfg) (t : CTok) (rest : List Char)
+    (hok : tokOK cfg t = true) (hf : follow cfg t rest = true) :
+    nextToken cfg (renderTok cfg t ++ rest) = some (t, rest) := by
+  cases t with
+  | illegal => simp [tokOK] at hok
+  | ident s => exact nextToken_ident cfg h s rest hok hf
+  | str s =>
+    simp only [renderTok, List.cons_append, List.append_assoc]
+    exact nextToken_str cfg h s rest hok hf
+  | num d => exact nextToken_num cfg h d rest hok hf
+  | bool b => exact nextToken_bool cfg h b rest hf
+  | err e => exact nextToken_err cfg h e rest hok
+  | cmp k =>
+    cases k with
+    | lt => exact nextToken_lt cfg h rest hf
+    | gt => exact nextToken_gt cfg h rest hf
+    | eq => exact nextToken_punct cfg h '=' _ rest (by decide) (by decide)
+    | le => exact nextToken_le cfg h rest
+    | ge => exact nextToken_ge cfg h rest
+    | ne => exact nextToken_ne cfg h rest
+  | add => exact nextToken_punct cfg h '+' _ rest (by decide) (by decide)
+  | sub => exact nextToken_punct cfg h '-' _ rest (by decide) (by decide)
+  | mul => exact nextToken_punct cfg h '*' _ rest (by decide) (by decide)
+  | div => exact nextToken_punct cfg h '/' _ rest (by decide) (by decide)
+  | pow => exact nextToken_punct cfg h '^' _ rest (by decide) (by decide)
+  | lp => exact nextToken_punct cfg h '(' _ rest (by decide) (by decide)
+  | rp => exact nextToken_punct cfg h ')' _ rest (by decide) (by decide)
+  | colon => exact nextToken_punct cfg h ':' _ rest (by decide) (by decide)
+  | semi => exact nextToken_punct cfg h ';' _ rest (by decide) (by decide)
+  | lbk => exact nextToken_punct cfg h '[' _ rest (by decide) (by decide)
+  | rbk => exact nextToken_punct cfg h ']' _ rest (by decide) (by decide)
+  | lbrace => exact nextToken_punct cfg h '{' _ rest (by decide) (by decide)
+  | rbrace => exact nextToken_punct cfg h '}' _ rest (by decide) (by decide)
+  | comma =>
+    have hd : cfg.decimal ≠ ',' := by simpa [tokOK] using hok
+    exact nextToken_comma cfg h rest hd
+  | bang => exact nextToken_punct cfg h '!' _ rest (by decide) (by decide)
+  | pct => exact nextToken_punct cfg h '%' _ rest (by decide) (by decide)
+  | amp => exact nextToken_punct cfg h '&' _ rest (by decide) (by decide)
+  | «at» => exact nextToken_punct cfg h '@' _ rest (by decide) (by decide)
+  | spill => exact nextToken_spill cfg h rest hf
+  | backslash => exact nextToken_punct cfg h '\\' _ rest (by decide) (by decide)
+  | ref sh r => exact nextToken_ref cfg h sh r rest hok hf
+  | range sh l r => simp [tokOK] at hok
+  | sref a b c => simp [tokOK] at hok
+
+theorem nextToken_nil (cfg : LexCfg) : nextToken cfg [] = none := by
+  simp [nextToken]
+
+/-- a well-formed token has a non-empty text -/
+theorem renderTok_ne_nil (cfg : LexCfg) (h : CfgOK cfg) (t : CTok) (hok : tokOK cfg t = true) :
+    renderTok cfg t ≠ [] := by
+  intro he
+  have h1 := nextToken_renderTok cfg h t [] hok rfl
+  rw [he, List.append_nil, nextToken_nil] at h1
+  cases h1
+
 end IronCalc.Formula
